@@ -157,7 +157,8 @@ def gen_live(rng):
   return kind, cls, good(), ops
 
 
-# the witness of C03_hyper_live_multitask_rejected_unchanged_refuted, replayed on the running class on every run, and its radial companion
+# the input that showed the defect repaired by 65c6caf (a tensor kernel took part of a rejected vector; corpus/C03/multitask_rejected_partially_taken.json), its
+# variants and a radial companion: ordinary cases
 LIVE_FIXED = [
   ("multi", ("C4RadialMatern", "SquareExponential"), [1.5, 0.5, 2.0, 0.25], [["set", [3.0, 1.0, 1.0, 0.0]], ["get"], ["probe"]]),
   ("multi", ("SquareExponential", "C2RadialMatern"), [1.5, 0.5, 2.0, 0.25], [["set", [3.0, 0.5, -2.0, 0.25]], ["probe"], ["get"], ["set", [-1.0, 9.0, 9.0, 9.0]], ["get"]]),
@@ -270,18 +271,13 @@ def oracle(inp):
   return live_object(inp, k, st, fail, lambda fl: radial_entry_points(k, cls, st["hp"], st["x"], st["z"], st["noise"], shift, fl, st["last"]))
 
 
-# Switch for the tensor kernel's behaviour described by C03_hyper_live_multitask_rejected_unchanged_refuted (a vector rejected for one of its length
-# scales has been taken in part).  The weakest reading of "rejected" / "read back as set" - an error is raised, the object never holds an inadmissible
-# value, it computes with what it reads back, an ACCEPTED vector reads back - holds there, so it is not reported; with the switch on, the stronger
-# reading "a rejected assignment leaves the object unchanged" is stated for the tensor kernel as well, under this signature.
-MULTITASK_REJECTED_SET_MUST_NOT_CHANGE = False
 MULTITASK_PARTIAL_SIG = "C03:hyper:multitask-rejected-assignment-partially-taken"
 
 
 def live_hyper_oracle(inp, fail):
   """One live kernel object, plain-Python statement: an assignment is rejected (HyperparameterInvalidError) iff some entry is <= 0, NaN or infinite; an
-  accepted vector reads back; a REJECTED one is not taken - what is read back afterwards is admissible and, for a radial kernel, the last accepted
-  vector -; and at every moment the kernel computes with what it reads back: k(x,x) = read-back process variance, covariance = alpha*phi(r)."""
+  accepted vector reads back; a REJECTED one is not taken - what is read back afterwards is admissible and is the last accepted vector (for the
+  tensor kernel too, since the repair 65c6caf; a tensor kernel that has taken PART of a rejected vector is reported under its own signature) -; and at every moment the kernel computes with what it reads back: k(x,x) = read-back process variance, covariance = alpha*phi(r)."""
   from libsigopt.compute.covariance_base import HyperparameterInvalidError
   kk, cls = inp["k"], (inp["cls"] if inp["k"] == "radial" else tuple(inp["cls"]))
   cur = [float(v) for v in inp["hp"]]
@@ -328,12 +324,9 @@ def live_hyper_oracle(inp, fail):
       r = use("after an accepted assignment on a live object")
     else:
       rb = [float(v) for v in k.hyperparameters]
-      if kk == "multi" and admissible(rb) and rb != cur:
-        # neither the old vector nor the rejected one, but admissible: the partial take of the tensor kernel (see the switch above)
-        if MULTITASK_REJECTED_SET_MUST_NOT_CHANGE:
-          return dict(signature=MULTITASK_PARTIAL_SIG, what="multitask kernel: a rejected hyperparameter assignment changed the object (part of the rejected vector was taken)",
-                      input=inp, observed=rb, expected=list(cur), oracle="plain Python")
-        cur = rb
+      if kk == "multi" and admissible(rb) and rb != cur:      # neither the old vector nor the rejected one, but admissible: part of the rejected vector was taken
+        return dict(signature=MULTITASK_PARTIAL_SIG, what="multitask kernel: a rejected hyperparameter assignment changed the object (part of the rejected vector was taken)",
+                    input=inp, observed=rb, expected=list(cur), oracle="plain Python")
       r = use("after a REJECTED assignment (the error was caught, the object is used on)")
     if r:
       return r
@@ -483,10 +476,8 @@ def live_object(inp, k, st, fail, entry_points):
       if rb != st["hp"]:
         if inp["kind"] != "multi":
           return fail("a rejected assignment changed the hyperparameters read back", rb, list(st["hp"]))
-        if MULTITASK_REJECTED_SET_MUST_NOT_CHANGE:
-          return dict(signature=MULTITASK_PARTIAL_SIG, what="multitask kernel: a rejected hyperparameter assignment changed the object (part of the rejected vector was taken)",
-                      input=inp, observed=rb, expected=list(st["hp"]), oracle="plain Python")
-        st["hp"][:] = rb      # the tensor kernel's partial take: admissible, and every entry point is now stated for what is read back
+        return dict(signature=MULTITASK_PARTIAL_SIG, what="multitask kernel: a rejected hyperparameter assignment changed the object (part of the rejected vector was taken)",
+                    input=inp, observed=rb, expected=list(st["hp"]), oracle="plain Python")
     elif op == "scribble":
       for arr in st["last"]:
         try:
@@ -733,9 +724,9 @@ LEVEL_TEXT += ("; the searcher states the closed form entry-wise RELATIVELY in t
 # --- gap round B (seeded C03_m12): a rejected assignment on a LIVE kernel object
 LEVEL_TEXT += ("; live kernel objects (Model.Hyper: radial_assign / multitask_assign follow set_hyperparameters statement by statement, including what has been "
                "assigned by the time HyperparameterInvalidError is raised): an assignment is accepted iff every entry is admissible, an accepted vector reads back, a "
-               "rejected assignment leaves a radial kernel unchanged in every field, after ANY sequence of assignments / read-backs / uses the kernel reads back exactly what "
-               "it computes with, that is admissible, and for a radial kernel it is the last accepted vector (theorems C03_hyper_live_*; op-sequence correspondence on "
+               "rejected assignment leaves a radial kernel and a tensor kernel unchanged in every field, after ANY sequence of assignments / read-backs / uses the kernel reads back exactly what "
+               "it computes with, that is admissible, and it is the last accepted vector - radial and tensor kernel alike (theorems C03_hyper_live_*; op-sequence correspondence on "
                "the running classes; searcher: inadmissible assignments inside the life histories, every entry point stated again afterwards)")
-LEVEL_NOTE += ("; for the tensor kernel 'a rejected assignment leaves the object unchanged' is REFUTED on the faithful model (C03_hyper_live_multitask_rejected_unchanged_refuted: "
-               "the process variance / physical length scales of a vector rejected for a later entry have already been assigned) - the object stays an admissible, coherent kernel, "
-               "which is what the weakest reading of 'rejected' asks; reported to the coordinator, switch MULTITASK_REJECTED_SET_MUST_NOT_CHANGE")
+LEVEL_NOTE += ("; 'a rejected assignment leaves the object unchanged' is a theorem for the tensor kernel too since the repair 65c6caf (its setter builds the component kernels "
+               "before it assigns anything; on the parent tree the process variance / physical length scales of a vector rejected for a later entry had already been assigned - found "
+               "while stating the theorem, witness corpus/C03/multitask_rejected_partially_taken.json)")
